@@ -19,6 +19,18 @@ import (
 func init() {
 	Register("C09", checkC09)
 	dumpers["guards"] = dumpGuards
+	dumpers["summary"] = func(P *load.Program, args []string) {
+		E := guardsEngine(P)
+		for f := range ssautil.AllFunctions(P.SSA) {
+			if load.InModule(f) && f.Blocks != nil && len(args) > 0 && strings.Contains(f.String(), args[0]) {
+				if s := E.Summarize(f); s != nil {
+					fmt.Printf("%s :: errIdx=%d %+v\n", f.String(), s.ErrIdx, s.Res)
+				} else {
+					fmt.Println(f.String(), ":: no summary")
+				}
+			}
+		}
+	}
 	dumpers["decide"] = func(P *load.Program, args []string) {
 		E := guardsEngine(P)
 		for f := range ssautil.AllFunctions(P.SSA) {
@@ -76,7 +88,7 @@ func checkC09(c *Ctx) {
 	P := c.Prog
 	roots := decoderRoots(P)
 	E := guardsEngine(P)
-	scope := runGuards(c, roots, guardsOpts{rule: c09Rule, loopRule: "R2.progress", excluded: c09Excluded, rootsCat: "decoder roots"})
+	scope := runGuards(c, roots, guardsOpts{rule: c09Rule, loopRule: "R2.progress", nest: true, excluded: c09Excluded, rootsCat: "decoder roots"})
 	for _, f := range roots {
 		a := E.Analyze(f)
 		if a != nil && a.Converged {
